@@ -117,8 +117,13 @@ extern "C" void h_stream() {
         else if (op == 7) { uint32_t c = 1 + (uint32_t)vp_concrete(vp_choose(3, "c")); u.setDefaultLogContainerSize(c); m.csize = c; A(u.defaultLogContainerSize() == c); }
         else { long b = 1 + (long)vp_concrete(vp_choose(4, "bs")); u.setBufferSize(b); m.bs = b; }   // small back-pressure threshold
         observe(u, m);
-        // a waiter whose predicate became true through this operation must have been notified
-        // (setBufferSize is configuration before the stream is shared)
+        // a waiter whose predicate became true through this operation must have been notified.
+        // setBufferSize is called by the application thread through File::setDefaultLogContainerSize, which is legal while a
+        // write session runs: enlarging the buffer frees space for a writer that is parked on the old threshold
+        if (op == 8) {
+            bool wb1 = !m.ab && !((m.tellp - m.tellg) < m.bs);
+            if (wb0 && !wb1) vp_assert(vp_notified(&u.tellgChanged) > ng, "a writer waiting for buffer space is notified when the buffer is enlarged");
+        }
         // single producer / single consumer: the consumer's own operations (read, seekg, dropOldData) need not wake the
         // consumer, the producer's own operations (write, nextLogContainer, setFileSize) need not wake the producer
         bool consumerOp = (op == 2 || op == 3 || op == 5), producerOp = (op == 0 || op == 1 || op == 4 || op == 6);
